@@ -311,6 +311,9 @@ class MiniEval:
                 return a == b
             if isinstance(e.ops[0], ast.NotEq):
                 return a != b
+            ops = {ast.Lt: a < b, ast.LtE: a <= b, ast.Gt: a > b, ast.GtE: a >= b}
+            if type(e.ops[0]) in ops:
+                return ops[type(e.ops[0])]
             raise Unsupported("comparison in table code")
         if isinstance(e, ast.Attribute):
             v = self.eval(e.value, env, m)
